@@ -72,13 +72,13 @@ theorem skipTrivia_spaces (pre : List Char) (hp : allSpaces pre = true) (nl : Bo
 /-! ## one round of the lexer loop -/
 
 theorem lexLoop_token (fuel : Nat) (σ : St) (nl : Bool) (pre w rest : List Char) (k : Kind) (acc : List Token)
-    (hp : allSpaces pre = true) (hne : w ≠ [])
+    (hp : allSpaces pre = true) (hne : w ≠ []) (hf : pre.length ≤ fuel)
     (hs : isTriviaStart nl (w ++ rest) = false)
     (hscan : scan1 (regexAllowed σ) (tmplClose σ) (w ++ rest) = some (k, w, rest)) :
     lexLoop (fuel + 1) σ nl (pre ++ (w ++ rest)) acc
       = lexLoop fuel (step σ ⟨k, w, nl⟩) false rest (⟨k, w, nl⟩ :: acc) := by
-  have h1 : skipTrivia ((pre ++ (w ++ rest)).length + 1) nl (pre ++ (w ++ rest)) = some (nl, w ++ rest) :=
-    skipTrivia_spaces pre hp nl (w ++ rest) hs _ (by simp; omega)
+  have h1 : skipTrivia (fuel + 1) nl (pre ++ (w ++ rest)) = some (nl, w ++ rest) :=
+    skipTrivia_spaces pre hp nl (w ++ rest) hs _ (by omega)
   cases w with
   | nil => exact absurd rfl hne
   | cons c w' =>
